@@ -17,7 +17,7 @@ DECLS = [D('i', 'int', default=1), D('f', 'float', default=0.5), D('b', 'bool', 
          D('include', 'func', cbs='I')]
 
 RULE = ('accepted texts over a fixed schema (scalars, lists, titled/multi/single sections that all declare include) split at item boundaries - also inside section bodies - into random '
-        'include trees (depth 1..10 and chains up to the limit), files addressed relative to the working directory, absolutely, or through 1-2 search-path directories; the split parse must '
+        'include trees (depth 1..10 and chains up to the limit), files addressed relative to the working directory (also with a leading ~ that names no account), absolutely, or through 1-2 search-path directories (a decoy file of the same name in the directory added later, a directory of the same name in the one added first); the split parse must '
         'give the same tree as the flat text, leave include depth 0 and no open descriptor. Position cases: an error after an include (and inside included files) must carry the right file '
         'name and line. Failure matrix: missing file, ENOTDIR, dangling symlink, directory, symlink loop, depth limit+1/+2, empty name, wrong arity, broken included file - 12+ failures in a '
         'row - each a reported parse error with descriptors balanced, then a good include into the same and a new context still works. '
@@ -71,6 +71,9 @@ class Splitter:
             if r < 0.75:
                 return fn, '%s/%s' % (sp, fn)
             return '@CWD@/@DIR@/%s/%s' % (sp, fn), '%s/%s' % (sp, fn)
+        if r < 0.1:
+            fn = '~f%d.conf' % k      # a tilde that names no account: an ordinary relative name
+            return fn, fn
         if r < 0.6:
             return fn, fn
         if r < 0.8:
@@ -97,7 +100,7 @@ class Splitter:
                     self.envs.append(('VERIF_INC_%d' % k, name))
                     out.append('include(${VERIF_INC_%d})' % k if self.rng.random() < 0.5 else 'include("${VERIF_INC_%d}")' % k)
                 else:
-                    q = self.rng.choice(['"%s"', "'%s'", '%s']) if not any(c in name for c in ' @') else '"%s"'
+                    q = self.rng.choice(['"%s"', "'%s'", '%s']) if not any(c in name for c in ' @~') else '"%s"'
                     out.append('include(%s)' % (q % name))
                 i += run
             else:
@@ -210,6 +213,8 @@ def script(spec):
             L.append('mkfile %s %s' % (hx(d + '/' + path), hx(fix(content))))
             if path.startswith('sp2/') and zlib.crc32(path.encode()) % 2:
                 L.append('mkdir %s' % hx(d + '/sp1/' + path[4:]))     # a directory of the same name in the directory searched first
+            if path.startswith('sp1/') and zlib.crc32(path.encode()) % 2:
+                L.append('mkfile %s %s' % (hx(d + '/sp2/' + path[4:]), hx('i = 31337\ns = "decoy"\n')))     # a file of the same name in the directory added second: never read
         L.append('chdir %s' % hx(d))
         for var, val in spec.get('envs', []):
             L.append('setenv %s %s' % (hx(var), hx(val)))
